@@ -86,22 +86,24 @@ Proof. intros H1 H2 H3 H3' H4. cbn [utf8_dec]. rewrite H1, H2, H3, H3', H4. refl
 Lemma utf8_step c bs rest : utf8_enc1 c = Some bs -> utf8_dec (bs ++ rest) = option_map (cons c) (utf8_dec rest).
 Proof.
   unfold utf8_enc1. destruct (c <? 128) eqn:C1.
-  { intro H. injection H as H. subst bs. cbn [app]. apply utf8_dec_1. exact C1. }
+  { intro H. assert (E : bs = [c]) by congruence. clear H. subst bs. cbn [app]. apply utf8_dec_1. exact C1. }
   destruct (c <? 2048) eqn:C2.
-  { intro H. injection H as H. subst bs.
-    remember (192 + c / 64) as b0 eqn:E0. remember (128 + c mod 64) as b1 eqn:E1. cbn [app].
+  { intro H. remember (192 + c / 64) as b0 eqn:E0. remember (128 + c mod 64) as b1 eqn:E1.
+    assert (E : bs = [b0; b1]) by congruence. clear H. subst bs. cbn [app].
     rewrite utf8_dec_2; [|lia|lia|unfold cont; lia].
     f_equal. f_equal. lia. }
   destruct (c <? 65536) eqn:C3.
-  { destruct ((55296 <=? c) && (c <=? 57343)) eqn:SG; [discriminate|]. intro H. injection H as H. subst bs.
-    remember (224 + c / 4096) as b0 eqn:E0. remember (128 + (c / 64) mod 64) as b1 eqn:E1. remember (128 + c mod 64) as b2 eqn:E2. cbn [app].
+  { destruct ((55296 <=? c) && (c <=? 57343)) eqn:SG; [discriminate|]. intro H.
+    remember (224 + c / 4096) as b0 eqn:E0. remember (128 + (c / 64) mod 64) as b1 eqn:E1. remember (128 + c mod 64) as b2 eqn:E2.
+    assert (E : bs = [b0; b1; b2]) by congruence. clear H. subst bs. cbn [app].
     rewrite utf8_dec_3; [|lia|lia|lia|].
     - f_equal. f_equal. lia.
     - unfold cont. destruct (b0 =? 224) eqn:F0; destruct (b0 =? 237) eqn:F1; lia. }
   destruct (c <? 1114112) eqn:C4; [|discriminate].
-  intro H. injection H as H. subst bs.
+  intro H.
   remember (240 + c / 262144) as b0 eqn:E0. remember (128 + (c / 4096) mod 64) as b1 eqn:E1.
-  remember (128 + (c / 64) mod 64) as b2 eqn:E2. remember (128 + c mod 64) as b3 eqn:E3. cbn [app].
+  remember (128 + (c / 64) mod 64) as b2 eqn:E2. remember (128 + c mod 64) as b3 eqn:E3.
+  assert (E : bs = [b0; b1; b2; b3]) by congruence. clear H. subst bs. cbn [app].
   rewrite utf8_dec_4; [|lia|lia|lia|lia|].
   - f_equal. f_equal. lia.
   - unfold cont. destruct (b0 =? 240) eqn:F0; destruct (b0 =? 244) eqn:F1; lia.
@@ -109,13 +111,13 @@ Qed.
 Lemma utf8_enc_dec s : forall b rest, utf8_enc s = Some b -> utf8_dec (b ++ rest) = option_map (app s) (utf8_dec rest).
 Proof.
   induction s as [|c s IH]; intros b rest H; cbn [utf8_enc] in H.
-  - injection H as H. subst b. destruct (utf8_dec rest); reflexivity.
+  - injection H as H. subst b. cbn [app]. destruct (utf8_dec rest); reflexivity.
   - destruct (utf8_enc1 c) as [bs|] eqn:E1; [|discriminate H]. destruct (utf8_enc s) as [t|] eqn:E2; [|discriminate H].
     injection H as H. subst b. rewrite <- app_assoc, (utf8_step c bs _ E1), (IH t rest eq_refl). destruct (utf8_dec rest); reflexivity.
 Qed.
 Lemma utf8_ascii a : forall x, ascii a = true -> utf8_dec (a ++ x) = option_map (app a) (utf8_dec x).
 Proof.
-  induction a as [|c a IH]; intros x A; [destruct (utf8_dec x); reflexivity|].
+  induction a as [|c a IH]; intros x A; [cbn [app]; destruct (utf8_dec x); reflexivity|].
   unfold ascii in A. cbn [forallb] in A. apply andb_true_iff in A. destruct A as [A1 A2]. cbn [app utf8_dec]. rewrite A1.
   rewrite (IH x A2). destruct (utf8_dec x); reflexivity.
 Qed.
